@@ -90,7 +90,7 @@ fn lim_configs(tier: Tier) -> Vec<LimCfg> {
     // (the last two: an initial limit outside [min, max] - the constructors must bring it in)
     // (... and limits beyond 2^53, where usize -> f64 -> usize does not round-trip)
     const BIG: usize = (1usize << 53) + 3;
-    let bounds = [(1usize, 2usize, 3usize), (2, 2, 2), (1, 1, 4), (2, 9, 4), (2, 0, 4), (1, BIG, BIG)];
+    let bounds = [(1usize, 2usize, 3usize), (2, 2, 2), (1, 1, 4), (2, 9, 4), (2, 0, 4), (1, BIG, BIG), (1, usize::MAX, usize::MAX)];
     let programs: Vec<Vec<&'static str>> = tier.pick(
         vec![vec!["f", "x"], vec!["x", "x"], vec!["f", "f"], vec!["fs", "x"], vec!["f", "s", "x"]],
         vec![vec!["f", "x"], vec!["x", "x"], vec!["f", "f"], vec!["fs", "x"], vec!["f", "s", "x"], vec!["fx", "xf"], vec!["ff", "xx"], vec!["v", "f", "x"]],
@@ -214,12 +214,18 @@ fn check_lim_sequences(tier: Tier, rep: &mut Report) {
         for warm in warmups {
             let total = 4usize.pow(len as u32);
             for code in 0..total {
-                let l = cfg.make(warm);
+                // (the warm-up is fed step by step too: the bounds hold from the first sample on)
+                let l = cfg.make("");
                 let mut c = code;
                 let mut seqs = String::new();
-                for _ in 0..len {
-                    let ch = alphabet[c % 4];
-                    c /= 4;
+                for step in 0..warm.len() + len {
+                    let ch = if step < warm.len() {
+                        warm.as_bytes()[step] as char
+                    } else {
+                        let ch = alphabet[c % 4];
+                        c /= 4;
+                        ch
+                    };
                     seqs.push(ch);
                     l.feed(ch);
                     let x = l.limit();
@@ -230,7 +236,7 @@ fn check_lim_sequences(tier: Tier, rep: &mut Report) {
                             kind: "limit_out_of_bounds".into(),
                             site: cfg.kind.into(),
                             config: cfg.label(),
-                            history: json!({"warmup": warm, "feedback": seqs}),
+                            history: json!({"feedback_including_warmup": seqs}),
                             detail: format!("limit {x} outside [{}, {}] after feedback {seqs}", cfg.min, cfg.max),
                             log: vec![],
                         });
